@@ -2,7 +2,7 @@
 """tools/autoref.py <transformation>  -- apply one mechanical, behaviour-preserving rewrite to EVERY module of /repo/src/soundevent (in
 memory) and run all 20 checks on the result; prints the checks that report or lose their footing (none is the expected answer).
 Transformations: or2ifexp, isnotnone, swapifelse, guard2nested, returntemp, early2else, append2aug, flipcmp, demorgan, kw2spread,
-comp2loop, comp2temp.  A development aid, not part of any registered check."""
+comp2loop, comp2temp, renamelocals, ifexp2stmt, chaincmp, notin, sortkw, dict2call, isinstsplit, fstr2format, pos2kw, inlinetemp, unpacksplit.  A development aid, not part of any registered check."""
 import ast, os, sys, importlib, copy
 sys.path.insert(0,'/verif')
 from sa.cli import run_rules
@@ -158,7 +158,221 @@ class CompToTemp(ast.NodeTransformer):
                 setattr(n, f, self._fix(v))
         return n
 
-TR = {"kw2spread": KwToDictSpread, "comp2loop": CompAssignToLoop, "comp2temp": CompToTemp, "returntemp": ReturnTemp, "early2else": EarlyReturnToElse, "append2aug": AppendToAug, "flipcmp": FlipCompare, "demorgan": DeMorgan, "or2ifexp": OrToIfExp, "swapifelse": SwapIfElse, "isnotnone": IsNotNone, "guard2nested": GuardToNested}
+
+class RenameLocals(ast.NodeTransformer):
+    """every local variable of a function (not parameters, not names declared global / nonlocal, not names read before any binding in
+    an enclosing scope) gets the suffix `_v`: no rule may depend on what a local is called"""
+    def visit_FunctionDef(self, n):
+        params = {a.arg for a in n.args.posonlyargs + n.args.args + n.args.kwonlyargs} | ({n.args.vararg.arg} if n.args.vararg else set()) | ({n.args.kwarg.arg} if n.args.kwarg else set())
+        skip = set(params)
+        stores = set()
+        nested = [x for x in ast.walk(n) if x is not n and isinstance(x, (ast.FunctionDef, ast.Lambda, ast.ClassDef, ast.AsyncFunctionDef))]
+        if nested:
+            return n  # closures read the outer names: leave such functions alone
+        for x in ast.walk(n):
+            if isinstance(x, (ast.Global, ast.Nonlocal)):
+                skip |= set(x.names)
+            if isinstance(x, ast.Name) and isinstance(x.ctx, ast.Store):
+                stores.add(x.id)
+            if isinstance(x, (ast.Import, ast.ImportFrom)):
+                return n
+            if isinstance(x, ast.ExceptHandler) and x.name:
+                skip.add(x.name)
+            if isinstance(x, (ast.ListComp, ast.SetComp, ast.DictComp, ast.GeneratorExp)):
+                pass
+        ren = {v: v + "_v" for v in stores - skip if not v.startswith("__")}
+        for x in ast.walk(n):
+            if isinstance(x, ast.Name) and x.id in ren:
+                x.id = ren[x.id]
+        return n
+
+class ElifToNested(ast.NodeTransformer):
+    """`elif c:` -> `else:` + nested `if c:` is already the same tree; instead: `if a: X elif b: Y else: Z` with returns in X -> separate ifs"""
+    def visit_If(self, n):
+        self.generic_visit(n)
+        return n
+
+class IfExpAssignToStmt(ast.NodeTransformer):
+    """`x = a if c else b` -> `if c: x = a` / `else: x = b`  (simple name target)"""
+    def _fix(self, body):
+        out = []
+        for st in body:
+            if isinstance(st, ast.Assign) and len(st.targets) == 1 and isinstance(st.targets[0], ast.Name) and isinstance(st.value, ast.IfExp):
+                v = st.value
+                out.append(ast.copy_location(ast.If(test=v.test, body=[ast.Assign(targets=[ast.Name(id=st.targets[0].id, ctx=ast.Store())], value=v.body)],
+                                                    orelse=[ast.Assign(targets=[ast.Name(id=st.targets[0].id, ctx=ast.Store())], value=v.orelse)]), st))
+            elif isinstance(st, ast.Return) and isinstance(st.value, ast.IfExp):
+                v = st.value
+                out.append(ast.copy_location(ast.If(test=v.test, body=[ast.Return(value=v.body)], orelse=[]), st))
+                out.append(ast.copy_location(ast.Return(value=v.orelse), st))
+            else:
+                out.append(st)
+        return out
+    def generic_visit(self, n):
+        super().generic_visit(n)
+        for f in ("body", "orelse", "finalbody"):
+            v = getattr(n, f, None)
+            if isinstance(v, list) and v and isinstance(v[0], ast.stmt):
+                setattr(n, f, self._fix(v))
+        return n
+
+class ChainCompare(ast.NodeTransformer):
+    """`a <= b <= c` with b a plain name / constant / attribute chain -> `a <= b and b <= c`"""
+    def visit_Compare(self, n):
+        self.generic_visit(n)
+        def simple(x):
+            return isinstance(x, (ast.Name, ast.Constant)) or (isinstance(x, ast.Attribute) and simple(x.value))
+        if len(n.ops) == 2 and simple(n.comparators[0]):
+            import copy
+            return ast.copy_location(ast.BoolOp(op=ast.And(), values=[ast.Compare(left=n.left, ops=[n.ops[0]], comparators=[n.comparators[0]]),
+                                                                      ast.Compare(left=copy.deepcopy(n.comparators[0]), ops=[n.ops[1]], comparators=[n.comparators[1]])]), n)
+        return n
+
+class NotInToNot(ast.NodeTransformer):
+    """`a not in b` -> `not (a in b)`, `a != b` -> `not (a == b)` for constants on one side"""
+    def visit_Compare(self, n):
+        self.generic_visit(n)
+        if len(n.ops) == 1 and isinstance(n.ops[0], ast.NotIn):
+            return ast.copy_location(ast.UnaryOp(op=ast.Not(), operand=ast.Compare(left=n.left, ops=[ast.In()], comparators=n.comparators)), n)
+        return n
+
+class SortKeywords(ast.NodeTransformer):
+    """keyword arguments of calls in reverse alphabetical order (argument expressions in this package have no side effects on each other)"""
+    def visit_Call(self, n):
+        self.generic_visit(n)
+        if len(n.keywords) >= 2 and all(k.arg is not None for k in n.keywords):
+            n.keywords = sorted(n.keywords, key=lambda k: k.arg, reverse=True)
+        return n
+
+class DictLiteralToCall(ast.NodeTransformer):
+    """{"a": x, "b": y} with identifier keys -> dict(a=x, b=y)"""
+    def visit_Dict(self, n):
+        self.generic_visit(n)
+        import keyword
+        if n.keys and all(isinstance(k, ast.Constant) and isinstance(k.value, str) and k.value.isidentifier() and not keyword.iskeyword(k.value) for k in n.keys):
+            return ast.copy_location(ast.Call(func=ast.Name(id="dict", ctx=ast.Load()), args=[], keywords=[ast.keyword(arg=k.value, value=v) for k, v in zip(n.keys, n.values)]), n)
+        return n
+
+class IsinstanceSplit(ast.NodeTransformer):
+    """isinstance(x, (A, B)) with x a plain name -> isinstance(x, A) or isinstance(x, B)"""
+    def visit_Call(self, n):
+        self.generic_visit(n)
+        if isinstance(n.func, ast.Name) and n.func.id == "isinstance" and len(n.args) == 2 and isinstance(n.args[1], ast.Tuple) and isinstance(n.args[0], ast.Name) \
+                and len(n.args[1].elts) >= 2:
+            import copy
+            return ast.copy_location(ast.BoolOp(op=ast.Or(), values=[ast.Call(func=ast.Name(id="isinstance", ctx=ast.Load()), args=[copy.deepcopy(n.args[0]), e], keywords=[]) for e in n.args[1].elts]), n)
+        return n
+
+class FStringToFormat(ast.NodeTransformer):
+    """f"a{x}b" -> "a{}b".format(x) for plain fields (no conversion / format spec)"""
+    def visit_FormattedValue(self, n):
+        n.value = self.visit(n.value)  # not the format spec (itself a JoinedStr)
+        return n
+    def visit_JoinedStr(self, n):
+        self.generic_visit(n)
+        parts, args = [], []
+        for v in n.values:
+            if isinstance(v, ast.Constant):
+                parts.append(str(v.value).replace("{", "{{").replace("}", "}}"))
+            elif isinstance(v, ast.FormattedValue) and v.conversion == -1 and v.format_spec is None:
+                parts.append("{}")
+                args.append(v.value)
+            else:
+                return n
+        return ast.copy_location(ast.Call(func=ast.Attribute(value=ast.Constant(value="".join(parts)), attr="format", ctx=ast.Load()), args=args, keywords=[]), n)
+
+class PositionalToKeyword(ast.NodeTransformer):
+    """calls of the package's own module-level functions: positional arguments after the first become keywords (needs the signature: done
+    for functions defined in the same module, without *args)"""
+    def visit_Module(self, n):
+        self.sigs = {f.name: f for f in n.body if isinstance(f, ast.FunctionDef) and not f.args.vararg and not f.args.posonlyargs}
+        self.generic_visit(n)
+        return n
+    def visit_Call(self, n):
+        self.generic_visit(n)
+        f = self.sigs.get(n.func.id) if isinstance(n.func, ast.Name) else None
+        if f is not None and len(n.args) >= 2 and not any(isinstance(a, ast.Starred) for a in n.args) and len(n.args) <= len(f.args.args) \
+                and all(k.arg is not None for k in n.keywords):
+            names = [a.arg for a in f.args.args]
+            n.keywords = [ast.keyword(arg=names[i], value=a) for i, a in enumerate(n.args) if i >= 1] + n.keywords
+            n.args = n.args[:1]
+        return n
+
+class InlineTemp(ast.NodeTransformer):
+    """`t = expr` immediately followed by a statement that reads t exactly once (and t is not read anywhere else in the function):
+    the expression is written in place.  Only when the reading statement is a return / assignment / expression statement (not a
+    loop or branch that could evaluate it several times or not at all) and the read is not inside a lambda / comprehension."""
+    def visit_FunctionDef(self, n):
+        self.generic_visit(n)
+        import copy
+        counts = {}
+        for x in ast.walk(n):
+            if isinstance(x, ast.Name):
+                counts.setdefault(x.id, [0, 0])[0 if isinstance(x.ctx, ast.Store) else 1] += 1
+        def fix(body):
+            out = []
+            i = 0
+            while i < len(body):
+                st = body[i]
+                nxt = body[i + 1] if i + 1 < len(body) else None
+                if isinstance(st, ast.Assign) and len(st.targets) == 1 and isinstance(st.targets[0], ast.Name) and nxt is not None \
+                        and isinstance(nxt, (ast.Return, ast.Assign, ast.Expr)) and counts.get(st.targets[0].id) == [1, 1] \
+                        and not isinstance(st.value, (ast.Yield, ast.YieldFrom, ast.Await, ast.NamedExpr)):
+                    nm = st.targets[0].id
+                    reads = [x for x in ast.walk(nxt) if isinstance(x, ast.Name) and x.id == nm and isinstance(x.ctx, ast.Load)]
+                    shielded = [y for x in ast.walk(nxt) if isinstance(x, (ast.Lambda, ast.ListComp, ast.SetComp, ast.DictComp, ast.GeneratorExp, ast.IfExp, ast.BoolOp))
+                                for y in ast.walk(x) if isinstance(y, ast.Name) and y.id == nm]
+                    v_ = getattr(nxt, "value", None)
+                    def head(v_):
+                        # the read is the first thing the statement evaluates (nothing with an effect runs before it)
+                        if isinstance(v_, ast.Name):
+                            return v_.id == nm
+                        if isinstance(v_, (ast.Attribute, ast.Subscript)):
+                            return head(v_.value)
+                        if isinstance(v_, ast.Call):
+                            return (isinstance(v_.func, ast.Attribute) and head(v_.func.value)) or (bool(v_.args) and isinstance(v_.args[0], ast.Name) and v_.args[0].id == nm
+                                                                                                     and not any(isinstance(y, ast.Call) for y in ast.walk(v_.func)))
+                        return False
+                    if len(reads) == 1 and not shielded and v_ is not None and head(v_):
+                        class R(ast.NodeTransformer):
+                            def visit_Name(self_, x):
+                                return copy.deepcopy(st.value) if x.id == nm and isinstance(x.ctx, ast.Load) else x
+                        out.append(R().visit(nxt))
+                        i += 2
+                        continue
+                out.append(st)
+                i += 1
+            return out
+        for x in ast.walk(n):
+            for f in ("body", "orelse", "finalbody"):
+                v = getattr(x, f, None)
+                if isinstance(v, list) and v and isinstance(v[0], ast.stmt):
+                    setattr(x, f, fix(v))
+        return n
+
+class UnpackSplit(ast.NodeTransformer):
+    """`a, b = x, y` -> `a = x` / `b = y` when no target name occurs on the right-hand side"""
+    def _fix(self, body):
+        out = []
+        for st in body:
+            if isinstance(st, ast.Assign) and len(st.targets) == 1 and isinstance(st.targets[0], ast.Tuple) and isinstance(st.value, ast.Tuple) \
+                    and len(st.targets[0].elts) == len(st.value.elts) and all(isinstance(t, ast.Name) for t in st.targets[0].elts) \
+                    and not any(isinstance(e, ast.Starred) for e in st.value.elts) \
+                    and not ({t.id for t in st.targets[0].elts} & {x.id for x in ast.walk(st.value) if isinstance(x, ast.Name)}):
+                for t, v in zip(st.targets[0].elts, st.value.elts):
+                    out.append(ast.copy_location(ast.Assign(targets=[t], value=v), st))
+            else:
+                out.append(st)
+        return out
+    def generic_visit(self, n):
+        super().generic_visit(n)
+        for f in ("body", "orelse", "finalbody"):
+            v = getattr(n, f, None)
+            if isinstance(v, list) and v and isinstance(v[0], ast.stmt):
+                setattr(n, f, self._fix(v))
+        return n
+
+TR = {"inlinetemp": InlineTemp, "unpacksplit": UnpackSplit, "renamelocals": RenameLocals, "ifexp2stmt": IfExpAssignToStmt, "chaincmp": ChainCompare, "notin": NotInToNot, "sortkw": SortKeywords, "dict2call": DictLiteralToCall, "isinstsplit": IsinstanceSplit, "fstr2format": FStringToFormat, "pos2kw": PositionalToKeyword, "kw2spread": KwToDictSpread, "comp2loop": CompAssignToLoop, "comp2temp": CompToTemp, "returntemp": ReturnTemp, "early2else": EarlyReturnToElse, "append2aug": AppendToAug, "flipcmp": FlipCompare, "demorgan": DeMorgan, "or2ifexp": OrToIfExp, "swapifelse": SwapIfElse, "isnotnone": IsNotNone, "guard2nested": GuardToNested}
 which = sys.argv[1]
 overlay = {}
 for dp, dn, fn in os.walk('/repo/src/soundevent'):
@@ -166,8 +380,9 @@ for dp, dn, fn in os.walk('/repo/src/soundevent'):
         if f.endswith('.py'):
             p = os.path.join(dp, f); rel = os.path.relpath(p, '/repo')
             src = open(p).read()
-            tree = TR[which]().visit(ast.parse(src))
-            ast.fix_missing_locations(tree)
+            tree = ast.parse(src)
+            for w_ in which.split("+"):  # several transformations composed: a+b+c
+                tree = ast.parse(ast.unparse(ast.fix_missing_locations(TR[w_]().visit(tree))))
             new = ast.unparse(tree) + "\n"
             if new != ast.unparse(ast.parse(src)) + "\n":
                 overlay[rel] = new
